@@ -449,15 +449,60 @@ func ruleEndDispatch(rule string) func(*Ctx) {
 			}
 		}
 		sort.Slice(starts, func(i, j int) bool { return starts[i].Index < starts[j].Index })
+		// the cap dispatch may have been moved into a helper called once per end (doEndCap(path, i, delta)): the
+		// dispatch is then explored inside the helper, and the two call sites must pass index 0 and the last index
+		expF := f
+		idx := []string{"0", "highI"}
+		if len(starts) == 0 {
+			for _, ci := range calls(f) {
+				h := ci.Common().StaticCallee()
+				if h == nil || !c.freshHelper(h) {
+					continue
+				}
+				var hs []*ssa.BasicBlock
+				for _, b := range h.Blocks {
+					if ifi, ok := b.Instrs[len(b.Instrs)-1].(*ssa.If); ok {
+						if cmp, ok := ifi.Cond.(*ssa.BinOp); ok && cmp.Op == token.LSS && isCallNamed(c, cmp.X, "math.Abs") {
+							hs = append(hs, b.Succs[1])
+						}
+					}
+				}
+				if len(hs) != 1 {
+					continue
+				}
+				// which parameter of h is the vertex index: the one whose arguments are 0 and len(path)-1
+				var sites []ssa.CallInstruction
+				for _, cj := range calls(f) {
+					if cj.Common().StaticCallee() == h {
+						sites = append(sites, cj)
+					}
+				}
+				if len(sites) != 2 {
+					continue
+				}
+				for k := range h.Params {
+					a0, a1 := sites[0].Common().Args[k], sites[1].Common().Args[k]
+					if isConstInt(a0, 0) && (isLenMinus1(a1, f.Params[2]) || valueName(a1) == "highI") {
+						expF = h
+						starts = []*ssa.BasicBlock{hs[0], hs[0]}
+						idx = []string{h.Params[k].Name(), h.Params[k].Name()}
+						co = h.Params[0].Name()
+						hdrs = map[*ssa.BasicBlock]bool{}
+					}
+				}
+			}
+		}
 		c.floor(rule, len(starts), 2)
 		ends := []string{"start", "end"}
-		idx := []string{"0", "highI"}
 		for i, sb := range starts {
 			if i > 1 {
 				break
 			}
 			for _, et := range c.enumValues("EndType") {
-				ex := &explorer{c: c, f: f, atoms: map[string]absVal{co + ".endType": intVal(et.val)}, stop: func(b *ssa.BasicBlock) bool { return hdrs[b] }, canon: canonParams(f, co, "group", "path")}
+				ex := &explorer{c: c, f: expF, atoms: map[string]absVal{co + ".endType": intVal(et.val)}, stop: func(b *ssa.BasicBlock) bool { return hdrs[b] }}
+				if expF == f {
+					ex.canon = canonParams(f, co, "group", "path")
+				}
 				outs := ex.explore(sb)
 				want := "(ClipperOffset).doSquare"
 				switch et.name {
@@ -697,7 +742,7 @@ func ruleMinkowski(rule string) func(*Ctx) {
 		}{{"MinkowskiSum64", true}, {"MinkowskiDiff64", false}, {"MinkowskiSumD", true}, {"MinkowskiDiffD", false}} {
 			g := c.fn(e.fn)
 			outs := (&explorer{c: c, f: g, canon: canonParams(g, "pattern", "path", "isClosed", "precisionV"), atomFn: func(x string) (absVal, bool) {
-				if strings.HasPrefix(x, "len(") {
+				if x == "len(precisionV)" { // the optional precision is not given; lengths of the geometry stay open
 					return intVal(0), true
 				}
 				return absVal{}, false
